@@ -1,1 +1,87 @@
-// placeholder
+// K8: translate_position -- included at the end of crates/toml_edit/src/error.rs under cfg(kani).
+// The contract itself sits on the function (cfg_attr(kani, kani::requires/ensures)); this file
+// provides the predicates it names and the proof_for_contract harnesses.
+pub(crate) mod verif_kani_error {
+    include!(concat!(env!("TOML_VERIF_KANI"), "/spec/oracles.rs"));
+
+    /// call-site invariant: the document is valid UTF-8 and the index (a span start produced by
+    /// winnow's char_span) lies on a character boundary or at/after the end
+    pub(crate) fn pre(input: &[u8], index: usize) -> bool {
+        core::str::from_utf8(input).is_ok() && (index >= input.len() || (input[index] & 0xC0) != 0x80)
+            && index <= input.len() + 1
+    }
+
+    /// O-pos: (line, character column), clamped at the end of input
+    pub(crate) fn post(input: &[u8], index: usize, r: (usize, usize)) -> bool {
+        r == o_pos::line_col(input, index)
+    }
+}
+
+#[cfg(kani)]
+mod verif_kani_error_harness {
+    use super::*;
+
+    fn run<const N: usize>() {
+        let a: [u8; N] = kani::any();
+        let index: usize = kani::any();
+        let r = translate_position(&a, index);
+        kani::cover!(r.0 > 0, "a position on a later line");
+        kani::cover!(r.1 > 0, "a position in a later column");
+    }
+
+    #[kani::proof_for_contract(translate_position)]
+    #[kani::unwind(3)]
+    fn k8_contract_n0() { run::<0>(); }
+    #[kani::proof_for_contract(translate_position)]
+    #[kani::unwind(3)]
+    fn k8_contract_n1() { run::<1>(); }
+    #[kani::proof_for_contract(translate_position)]
+    #[kani::unwind(4)]
+    fn k8_contract_n2() { run::<2>(); }
+    #[kani::proof_for_contract(translate_position)]
+    #[kani::unwind(5)]
+    fn k8_contract_n3() { run::<3>(); }
+    #[kani::proof_for_contract(translate_position)]
+    #[kani::unwind(6)]
+    fn k8_contract_n4() { run::<4>(); }
+    #[kani::proof_for_contract(translate_position)]
+    #[kani::unwind(7)]
+    fn k8_contract_n5() { run::<5>(); }
+
+    // postcondition-harness form of the same contract (assume pre, call, assert post)
+    fn run_post<const N: usize>() {
+        let a: [u8; N] = kani::any();
+        let index: usize = kani::any();
+        kani::assume(verif_kani_error::pre(&a, index));
+        let r = translate_position(&a, index);
+        assert!(verif_kani_error::post(&a, index, r), "translate_position differs from (line, character column)");
+        kani::cover!(r.0 > 0, "a position on a later line");
+        kani::cover!(r.1 > 0, "a position in a later column");
+    }
+
+    #[kani::proof]
+    #[kani::unwind(3)]
+    fn k8_post_n1() { run_post::<1>(); }
+    #[kani::proof]
+    #[kani::unwind(4)]
+    fn k8_post_n2() { run_post::<2>(); }
+    #[kani::proof]
+    #[kani::unwind(5)]
+    fn k8_post_n3() { run_post::<3>(); }
+    #[kani::proof]
+    #[kani::unwind(6)]
+    fn k8_post_n4() { run_post::<4>(); }
+    #[kani::proof]
+    #[kani::unwind(7)]
+    fn k8_post_n5() { run_post::<5>(); }
+
+    // arbitrary bytes and indices (the contract's precondition dropped): no panic, no overflow
+    #[kani::proof]
+    #[kani::unwind(5)]
+    fn k8_nopanic_n3() {
+        let a: [u8; 3] = kani::any();
+        let index: usize = kani::any();
+        let r = translate_position(&a, index);
+        kani::cover!(r.0 > 0);
+    }
+}
